@@ -220,6 +220,8 @@ class Ctx:
         """A feasible path inside the precondition ended in an exception: candidate violation of 'the read returns'."""
         name = type(ex).__name__
         self.res["exceptions"][name] = self.res["exceptions"].get(name, 0) + 1
+        if getattr(self, "raises_ok", None) is not None:
+            return self.raises_ok(ex)
         if self.scenario is None:
             self.res["errors"].append(f"exception before the scenario was set: {name}: {ex} @ {_where(ex)}")
             return
